@@ -77,10 +77,29 @@ static void getters (int h) {
 static PSocketAddress *loop_addr (int fam, int port) { return p_socket_address_new (fam == 6 ? "::1" : "127.0.0.1", (puint16) port); }
 static int port_owner (int port) { int i; for (i = 1; i < MAXS; i++) if (sk[i] && sport[i] == port) return i; return 0; }
 
+/* raw filler connections: occupy the accept queue of listener L (nobody accepts) until a fresh connection attempt stays pending */
+static int fillfd[16], nfill;
+static void fill_clear (void) { while (nfill > 0) __real_close (fillfd[--nfill]); }
+static int fill_listener (int l) {
+	PSocketAddress *a = loop_addr (sfam[l], sport[l]); struct sockaddr_storage ss; psize al = p_socket_address_get_native_size (a); int pending = 0;
+	memset (&ss, 0, sizeof ss); p_socket_address_to_native (a, &ss, al); p_socket_address_free (a);
+	while (nfill < 16 && !pending) {
+		int fd = socket (sfam[l] == 6 ? AF_INET6 : AF_INET, SOCK_STREAM | SOCK_NONBLOCK, 0); struct pollfd pf; int r;
+		if (fd < 0) break;
+		fillfd[nfill++] = fd;
+		r = __real_connect (fd, (struct sockaddr *) &ss, (socklen_t) al);
+		if (r == 0) continue;
+		if (errno != EINPROGRESS) break;
+		pf.fd = fd; pf.events = POLLOUT; pf.revents = 0;
+		if (__real_poll (&pf, 1, 250) == 0) pending = 1;        /* this attempt did not complete in 250 ms: the queue is full */
+	}
+	return pending;
+}
+
 typedef struct { char op[16]; int h, a, b, c; char sarg[24]; } Cmd;
 static pthread_mutex_t emx = PTHREAD_MUTEX_INITIALIZER;
 static void run_cmd (const Cmd *cm) {
-	int h = cm->h, ok = 0, cloexec = -1, dataok = 1, from = 0, id = 0; long res = 0, off = 0; PError *err = NULL; double t0; int code = 0;
+	int h = cm->h, ok = 0, cloexec = -1, dataok = 1, from = 0, id = 0, osconn = -1; long res = 0, off = 0; PError *err = NULL; double t0; int code = 0, ms;
 	const char *op = cm->op;
 	pthread_mutex_lock (&emx);
 	VT ("{\"e\":\"scall\",\"h\":%d,\"op\":\"%s\",\"a\":%d,\"b\":%d,\"c\":%d,\"s\":\"%s\"}", h, op, cm->a, cm->b, cm->c, cm->sarg); VT_END ();
@@ -100,6 +119,11 @@ static void run_cmd (const Cmd *cm) {
 		PSocketAddress *a = loop_addr (sfam[h], sport[cm->a]), *la;
 		ok = p_socket_connect (sk[h], a, &err); p_socket_address_free (a);
 		if (!p_socket_is_closed (sk[h]) && (la = p_socket_get_local_address (sk[h], NULL)) != NULL) { sport[h] = p_socket_address_get_port (la); p_socket_address_free (la); }
+	} else if (!strcmp (op, "connectfull")) {      /* a listener whose accept queue was filled by "fill": the attempt cannot complete */
+		PSocketAddress *a = loop_addr (sfam[h], sport[cm->a]); struct sockaddr_storage peer; socklen_t pl = sizeof peer;
+		ok = p_socket_connect (sk[h], a, &err); p_socket_address_free (a);
+		in_api = 0;
+		osconn = (!p_socket_is_closed (sk[h]) && getpeername (p_socket_get_fd (sk[h]), (struct sockaddr *) &peer, &pl) == 0) ? 1 : 0;   /* what the OS says */
 	} else if (!strcmp (op, "connectdead")) {      /* a port nobody listens on: bind a socket, remember its port, close it */
 		PSocket *t = p_socket_new (sfam[h] == 6 ? P_SOCKET_FAMILY_INET6 : P_SOCKET_FAMILY_INET, P_SOCKET_TYPE_STREAM, P_SOCKET_PROTOCOL_TCP, NULL);
 		PSocketAddress *a = loop_addr (sfam[h], 0), *la; int port = 1;
@@ -150,11 +174,12 @@ static void run_cmd (const Cmd *cm) {
 	else if (!strcmp (op, "close")) ok = p_socket_close (sk[h], &err);
 	else if (!strcmp (op, "getters")) ok = 1;
 	else if (!strcmp (op, "free")) { p_socket_free (sk[h]); sk[h] = NULL; ok = 1; }
+	ms = (int) (now_ms () - t0);
 	in_api = 0;
 	if (err) { code = p_error_get_code (err); p_error_free (err); }
 	pthread_mutex_lock (&emx);
-	VT ("{\"e\":\"sret\",\"h\":%d,\"op\":\"%s\",\"ok\":%d,\"res\":%ld,\"err\":%d,\"off\":%ld,\"dataok\":%d,\"from\":%d,\"id\":%d,\"cloexec\":%d,\"ms\":%d,\"nsys\":%d,\"npoll\":%d,\"pto\":%d,\"sys\":\"%s\",",
-	    h, op, ok, res, code, off, dataok, from, id, cloexec, (int) (now_ms () - t0), nsys, npoll, last_poll_timeout, syslog_);
+	VT ("{\"e\":\"sret\",\"h\":%d,\"op\":\"%s\",\"ok\":%d,\"res\":%ld,\"err\":%d,\"off\":%ld,\"dataok\":%d,\"from\":%d,\"id\":%d,\"cloexec\":%d,\"ms\":%d,\"nsys\":%d,\"npoll\":%d,\"pto\":%d,\"osconn\":%d,\"sys\":\"%s\",",
+	    h, op, ok, res, code, off, dataok, from, id, cloexec, ms, nsys, npoll, last_poll_timeout, osconn, syslog_);
 	getters (h); VT ("}"); VT_END ();
 	pthread_mutex_unlock (&emx);
 }
@@ -176,7 +201,7 @@ int main (int argc, char **argv) {
 			int i;
 			if (have_bg) { pthread_join (bg, NULL); have_bg = 0; }
 			for (i = 1; i < MAXS; i++) if (sk[i]) { p_socket_free (sk[i]); sk[i] = NULL; }
-			nplan = iplan = 0;
+			nplan = iplan = 0; fill_clear ();
 			VT ("{\"e\":\"Reset\"}"); VT_END (); continue;
 		}
 		if (!strcmp (cm.op, "plan")) {
@@ -187,6 +212,7 @@ int main (int argc, char **argv) {
 			continue;
 		}
 		if (!strcmp (cm.op, "storm")) { storm (atol (w1)); continue; }
+		if (!strcmp (cm.op, "fill")) { int ok = fill_listener (atoi (w1)); VT ("{\"e\":\"fill\",\"l\":%d,\"pending\":%d,\"n\":%d}", atoi (w1), ok, nfill); VT_END (); continue; }
 		if (!strcmp (cm.op, "join")) { if (have_bg) { pthread_join (bg, NULL); have_bg = 0; } continue; }
 		if (!strcmp (cm.op, "sleepms")) { struct timespec ts = { 0, 0 }; ts.tv_sec = atoi (w1) / 1000; ts.tv_nsec = (atoi (w1) % 1000) * 1000000L; nanosleep (&ts, NULL); continue; }
 		cm.h = atoi (w1);
